@@ -1,4 +1,5 @@
 import Regatta.Model.Auth
+import Regatta.Extracted.Facts
 /-
   C17 — Protected endpoints reject callers lacking the right token or certificate.
 
@@ -122,6 +123,24 @@ theorem c17_services (t : Tokens) (values : List Bytes) :
     allowCall t .kv values = true ∧ allowCall t .cluster values = true ∧
     allowCall t .tables values = authorize t.tables values ∧
     allowCall t .maintenance values = authorize t.maintenance values := ⟨rfl, rfl, rfl, rfl⟩
+
+/-- **the wiring the model assumes is the wiring of the current source** (facts regenerated from
+cmd/leader.go, cmd/follower.go and cmd/common.go by go/parser on every run): on both kinds of node
+the API server registers KV and Cluster with the default (accept-all) auth function, Tables with
+`authFunc(tables.token)` and Maintenance with `authFunc(maintenance.token)` — exactly `allowCall` —
+and both interceptor chains, unary and streaming, start with the auth interceptor -/
+theorem c17_wiring_facts :
+    Regatta.Extracted.apiWiring =
+      ["cmd/leader.go KVServer default", "cmd/leader.go ClusterServer default",
+       "cmd/leader.go TablesServer authFunc(viper.GetString(\"tables.token\"))",
+       "cmd/leader.go MaintenanceServer authFunc(viper.GetString(\"maintenance.token\"))",
+       "cmd/follower.go KVServer default", "cmd/follower.go ClusterServer default",
+       "cmd/follower.go MaintenanceServer authFunc(viper.GetString(\"maintenance.token\"))",
+       "cmd/follower.go TablesServer authFunc(viper.GetString(\"tables.token\"))"] ∧
+    Regatta.Extracted.apiInterceptors =
+      ["grpc.ChainStreamInterceptor: auth.StreamServerInterceptor(defaultAuthFunc), grpcmetrics.StreamServerInterceptor()",
+       "grpc.ChainUnaryInterceptor: auth.UnaryServerInterceptor(defaultAuthFunc), grpcmetrics.UnaryServerInterceptor()"] :=
+  ⟨rfl, rfl⟩
 
 /-- the other service's token is refused (when the two differ) -/
 theorem c17_other_token (t : Tokens) (h1 : t.tables ≠ []) (h2 : t.tables ≠ t.maintenance) (scheme : Bytes)
